@@ -20,4 +20,92 @@ def aggregate_use_numba_decorators : List String := []
 /-- the signature of dataiter/aggregate.py: use_numba: parameters in order, with the source text of their defaults -/
 def aggregate_use_numba_signature : List String := ["x"]
 
+/-- dataiter/aggregate.py: yield_groups_numba (sha256 of the function source: 43d0b2cde8766fa2) -/
+def agg_yield_groups_numba (truth : Term → Bool) : Out :=
+  let i' : Int := (0 : Int);
+  let n' : Term := (Term.app "len" [(Term.sym "x")]);
+  let out' : Term := (Term.app "list" []);
+  let eff0 : Term := (Term.app "for" [(Term.sym "j"), (Term.app "range" [(Term.int (1 : Int)), (Term.app "Add" [n', (Term.int (1 : Int))])]), (Term.app "block" [(Term.app "if" [(Term.app "And" [(Term.app "Lt" [(Term.sym "j"), n']), (Term.app "Eq" [(Term.app "getitem" [(Term.sym "group"), (Term.sym "j")]), (Term.app "getitem" [(Term.sym "group"), (Term.sym "i")])])]), (Term.app "block" [(Term.sym "continue")]), (Term.app "block" [])]), (Term.app "assign" [(Term.sym "xij"), (Term.app "getitem" [(Term.sym "x"), (Term.app "slice" [(Term.sym "i"), (Term.sym "j")])])]), (Term.app "if" [(Term.sym "drop_na"), (Term.app "block" [(Term.app "assign" [(Term.sym "xij"), (Term.app "getitem" [(Term.sym "xij"), (Term.app "~" [(Term.app "is_na_numba" [(Term.sym "xij")])])])])]), (Term.app "block" [])]), (Term.app ".append" [out', (Term.sym "xij")]), (Term.app "assign" [(Term.sym "i"), (Term.sym "j")])]), (Term.app "init" [(Term.sym "i"), (Term.int i')])]);
+  let xij' : Term := (Term.app "value-after-loop" [(Term.sym "xij"), eff0]);
+  let i' : Term := (Term.app "value-after-loop" [(Term.sym "i"), eff0]);
+  Out.ret [eff0] out'
+
+/-- the decorators of dataiter/aggregate.py: yield_groups_numba, outermost first -/
+def agg_yield_groups_numba_decorators : List String := ["njit(cache=dataiter.USE_NUMBA_CACHE)"]
+
+/-- the signature of dataiter/aggregate.py: yield_groups_numba: parameters in order, with the source text of their defaults -/
+def agg_yield_groups_numba_signature : List String := ["x", "group", "drop_na"]
+
+/-- dataiter/aggregate.py: generic_numba (sha256 of the function source: ea1e6bc5c95ae8d1) -/
+def agg_generic_numba (truth : Term → Bool) : Out :=
+  let aggregate' : Term := (Term.app "local-def" [(Term.app "def" [(Term.app "decorator" [(Term.app "njit" [(Term.app "=cache" [(Term.sym "dataiter.USE_NUMBA_CACHE")])])]), (Term.sym "aggregate"), (Term.app "params" [(Term.sym "x"), (Term.sym "group"), (Term.sym "drop_na"), (Term.sym "default"), (Term.sym "nrequired")]), (Term.app "block" [(Term.app "assign" [(Term.sym "out"), (Term.app "list" [])]), (Term.app "for" [(Term.sym "xg"), (Term.app "yield_groups_numba" [(Term.sym "x"), (Term.sym "group"), (Term.sym "drop_na")]), (Term.app "block" [(Term.app ".append" [(Term.sym "out"), (Term.app "ifexp" [(Term.app "GtE" [(Term.app "len" [(Term.sym "xg")]), (Term.sym "nrequired")]), (Term.app "function" [(Term.sym "xg")]), (Term.sym "default")])])])]), (Term.app "return" [(Term.sym "out")])])])]);
+  Out.ret [] aggregate'
+
+/-- the decorators of dataiter/aggregate.py: generic_numba, outermost first -/
+def agg_generic_numba_decorators : List String := ["functools.lru_cache(256)"]
+
+/-- the signature of dataiter/aggregate.py: generic_numba: parameters in order, with the source text of their defaults -/
+def agg_generic_numba_signature : List String := ["function"]
+
+/-- dataiter/aggregate.py: nth_apply_numba (sha256 of the function source: e7bc68c7796fa963) -/
+def agg_nth_apply_numba (truth : Term → Bool) : Out :=
+  let out' : Term := (Term.app "list" []);
+  let eff0 : Term := (Term.app "for" [(Term.sym "xg"), (Term.app "yield_groups_numba" [(Term.sym "x"), (Term.sym "group"), (Term.sym "drop_na")]), (Term.app "block" [(Term.app "if" [(Term.app "Or" [(Term.app "LtE/Lt" [(Term.int (0 : Int)), (Term.sym "index"), (Term.app "len" [(Term.sym "xg")])]), (Term.app "LtE/Lt" [(Term.app "neg" [(Term.app "len" [(Term.sym "xg")])]), (Term.sym "index"), (Term.int (0 : Int))])]), (Term.app "block" [(Term.app ".append" [out', (Term.app "getitem" [(Term.sym "xg"), (Term.sym "index")])])]), (Term.app "block" [(Term.app ".append" [out', (Term.sym "None")])])])])]);
+  Out.ret [eff0] out'
+
+/-- the decorators of dataiter/aggregate.py: nth_apply_numba, outermost first -/
+def agg_nth_apply_numba_decorators : List String := ["njit(cache=dataiter.USE_NUMBA_CACHE)"]
+
+/-- the signature of dataiter/aggregate.py: nth_apply_numba: parameters in order, with the source text of their defaults -/
+def agg_nth_apply_numba_signature : List String := ["x", "group", "index", "drop_na"]
+
+/-- dataiter/aggregate.py: mode_apply_numba (sha256 of the function source: 987e8b38f21ab8dd) -/
+def agg_mode_apply_numba (truth : Term → Bool) : Out :=
+  let out' : Term := (Term.app "list" []);
+  let eff0 : Term := (Term.app "for" [(Term.sym "xg"), (Term.app "yield_groups_numba" [(Term.sym "x"), (Term.sym "group"), (Term.sym "drop_na")]), (Term.app "block" [(Term.app "if" [(Term.app "Gt" [(Term.app "len" [(Term.sym "xg")]), (Term.int (0 : Int))]), (Term.app "block" [(Term.app "assign" [(Term.sym "ng"), (Term.app "np.full" [(Term.app "len" [(Term.sym "xg")]), (Term.int (0 : Int))])]), (Term.app "for" [(Term.sym "i"), (Term.app "range" [(Term.app "len" [(Term.sym "xg")])]), (Term.app "block" [(Term.app "for" [(Term.sym "j"), (Term.app "range" [(Term.app "len" [(Term.sym "xg")])]), (Term.app "block" [(Term.app "if" [(Term.app "Eq" [(Term.app "getitem" [(Term.sym "xg"), (Term.sym "j")]), (Term.app "getitem" [(Term.sym "xg"), (Term.sym "i")])]), (Term.app "block" [(Term.app "store" [(Term.app "getitem" [(Term.sym "ng"), (Term.sym "i")]), (Term.app "Add=" [(Term.app "getitem" [(Term.sym "ng"), (Term.sym "i")]), (Term.int (1 : Int))])])]), (Term.app "block" [])])])])])]), (Term.app ".append" [out', (Term.app "getitem" [(Term.sym "xg"), (Term.app "np.argmax" [(Term.sym "ng")])])])]), (Term.app "block" [(Term.app ".append" [out', (Term.sym "None")])])])])]);
+  let ng' : Term := (Term.app "value-after-loop" [(Term.sym "ng"), eff0]);
+  Out.ret [eff0] out'
+
+/-- the decorators of dataiter/aggregate.py: mode_apply_numba, outermost first -/
+def agg_mode_apply_numba_decorators : List String := ["njit(cache=dataiter.USE_NUMBA_CACHE)"]
+
+/-- the signature of dataiter/aggregate.py: mode_apply_numba: parameters in order, with the source text of their defaults -/
+def agg_mode_apply_numba_signature : List String := ["x", "group", "drop_na"]
+
+/-- dataiter/aggregate.py: count_unique_apply_numba (sha256 of the function source: b8460ddbdbf09f06) -/
+def agg_count_unique_apply_numba (truth : Term → Bool) : Out :=
+  let out' : Term := (Term.app "list" []);
+  let eff0 : Term := (Term.app "for" [(Term.sym "xg"), (Term.app "yield_groups_numba" [(Term.sym "x"), (Term.sym "group"), (Term.sym "drop_na")]), (Term.app "block" [(Term.app ".append" [out', (Term.app "len" [(Term.app "np.unique" [(Term.sym "xg")])])])])]);
+  Out.ret [eff0] out'
+
+/-- the decorators of dataiter/aggregate.py: count_unique_apply_numba, outermost first -/
+def agg_count_unique_apply_numba_decorators : List String := ["njit(cache=dataiter.USE_NUMBA_CACHE)"]
+
+/-- the signature of dataiter/aggregate.py: count_unique_apply_numba: parameters in order, with the source text of their defaults -/
+def agg_count_unique_apply_numba_signature : List String := ["x", "group", "drop_na"]
+
+/-- dataiter/aggregate.py: quantile_apply_numba (sha256 of the function source: 88f87ef1906a9386) -/
+def agg_quantile_apply_numba (truth : Term → Bool) : Out :=
+  let out' : Term := (Term.app "list" []);
+  let eff0 : Term := (Term.app "for" [(Term.sym "xg"), (Term.app "yield_groups_numba" [(Term.sym "x"), (Term.sym "group"), (Term.sym "drop_na")]), (Term.app "block" [(Term.app ".append" [out', (Term.app "ifexp" [(Term.app "GtE" [(Term.app "len" [(Term.sym "xg")]), (Term.int (1 : Int))]), (Term.app "np.quantile" [(Term.sym "xg"), (Term.sym "q")]), (Term.sym "np.nan")])])])]);
+  Out.ret [eff0] out'
+
+/-- the decorators of dataiter/aggregate.py: quantile_apply_numba, outermost first -/
+def agg_quantile_apply_numba_decorators : List String := ["njit(cache=dataiter.USE_NUMBA_CACHE)"]
+
+/-- the signature of dataiter/aggregate.py: quantile_apply_numba: parameters in order, with the source text of their defaults -/
+def agg_quantile_apply_numba_signature : List String := ["x", "group", "q", "drop_na"]
+
+/-- dataiter/aggregate.py: is_na_numba (sha256 of the function source: 950926df5f0cccb5) -/
+def agg_is_na_numba (truth : Term → Bool) : Out :=
+  let na' : Term := (Term.app "np.full" [(Term.app "len" [(Term.sym "x")]), (Term.sym "False")]);
+  let eff0 : Term := (Term.app "for" [(Term.sym "i"), (Term.app "range" [(Term.app "len" [(Term.sym "x")])]), (Term.app "block" [(Term.app "store" [(Term.app "getitem" [na', (Term.sym "i")]), (Term.app "is_na_item_numba" [(Term.app "getitem" [(Term.sym "x"), (Term.sym "i")])])])])]);
+  Out.ret [eff0] na'
+
+/-- the decorators of dataiter/aggregate.py: is_na_numba, outermost first -/
+def agg_is_na_numba_decorators : List String := ["njit(cache=dataiter.USE_NUMBA_CACHE)"]
+
+/-- the signature of dataiter/aggregate.py: is_na_numba: parameters in order, with the source text of their defaults -/
+def agg_is_na_numba_signature : List String := ["x"]
+
 end DI.Gen
